@@ -268,18 +268,16 @@ class Item:
 
 
 def _skip_attrs_back(text, mask, pos):
-    """Move pos back over preceding attribute / doc-comment lines."""
-    while True:
-        ls = text.rfind("\n", 0, pos - 1) + 1 if pos > 0 else 0
-        prev_end = ls - 1
-        if prev_end <= 0:
-            return pos
-        pls = text.rfind("\n", 0, prev_end) + 1
-        line = text[pls:prev_end].strip()
-        if line.startswith("///") or line.startswith("#[") or line.startswith("//!") or (line.startswith("//") and False):
-            pos = pls
+    """pos = start of a line; move it back over directly preceding attribute / doc-comment lines."""
+    while pos > 0:
+        prev_end = pos - 1                      # the newline ending the previous line
+        prev_start = text.rfind("\n", 0, prev_end) + 1
+        line = text[prev_start:prev_end].strip()
+        if line.startswith("///") or line.startswith("//!") or (line.startswith("#[") and line.endswith("]")):
+            pos = prev_start
             continue
-        return pos
+        break
+    return pos
 
 
 def scan_items(text, mask, lo, hi, ctx, out):
@@ -396,7 +394,7 @@ class Source:
     def line_of(self, pos):
         return self.text.count("\n", 0, pos) + 1
 
-    def find(self, kind, path):
+    def find(self, kind, path, select=None):
         """path: 'Layout::insert_hole', 'From<&Regions> for Layout::from', 'Layout' (struct), free fn name."""
         def norm(s):
             return re.sub(r"\s+", "", s)
@@ -420,8 +418,15 @@ class Source:
                         break
         if not cands:
             raise VxError(f"lost anchor: item `{path}` ({kind}) not found in {self.rel}")
+        if len(cands) > 1 and select:
+            def attrs_of(it):
+                m = re.search(r"\bfn\b", self.mask[it.start:it.end])
+                return " ".join(self.text[it.start:it.start + (m.start() if m else 0)].split())
+            cands = [c for c in cands if " ".join(select.split()) in attrs_of(c)]
         if len(cands) > 1:
             raise VxError(f"ambiguous item `{path}` in {self.rel}: {cands}")
+        if not cands:
+            raise VxError(f"lost anchor: item `{path}` with attribute `{select}` not found in {self.rel}")
         return cands[0]
 
 
@@ -613,7 +618,7 @@ def thread_world(ft, effects):
         if t in effects and idx + 1 < len(toks) and toks[idx + 1][0] == "(" and (idx == 0 or toks[idx - 1][0] != "fn"):
             close = match_close(ft.mask, toks[idx + 1][1])
             inner = ft.mask[toks[idx + 1][2]:close].strip()
-            sites.append((close, "Tracked(w)" if not inner else ", Tracked(w)", t))
+            sites.append((close, "Tracked(w)" if (not inner or inner.endswith(",")) else ", Tracked(w)", t))
     for close, ins, name in sorted(sites, reverse=True):
         ft.text = ft.text[:close] + ins + ft.text[close:]
         ft.log.append({"rule": "N12.world", "fn": ft.fnpath, "from": name + "(..)", "to": name + "(.., Tracked(w))"})
@@ -971,7 +976,7 @@ def strip_attrs(txt):
         s = line.strip()
         if s.startswith("///") or s.startswith("//!"):
             continue
-        if re.match(r"#\[(inline|must_use|derive|allow|doc|cfg_attr|repr|cold|track_caller|error)\b.*\]$", s):
+        if re.match(r"#\[(inline|must_use|derive|allow|doc|cfg_attr|repr|cold|track_caller|error|cfg)\b.*\]$", s):
             continue
         line = re.sub(r"#\[(from|source)\]\s*", "", line)
         out.append(line)
@@ -1009,11 +1014,15 @@ def parse_inline_rewrites(d):
 def emit_fn(em, info, unit, cur_source, blk, typemap):
     d, subs = blk
     args, fn_label = split_label(d.args)
+    select = None
+    if " @cfg " in args:
+        args, select = args.split(" @cfg ", 1)
+        select = select.strip()
     m = re.match(r"(.*?)(?:\s*->\s*([A-Za-z_][A-Za-z0-9_]*))?$", args)
     fnpath, retname = m.group(1).strip(), m.group(2)
     src = Source.get(cur_source)
     try:
-        it = src.find("fn", fnpath)
+        it = src.find("fn", fnpath, select)
     except VxError:
         if d.name == "fn?":
             info.setdefault("optional_missing", []).append(fnpath)
